@@ -9,6 +9,8 @@ import (
 	"crypto/tls"
 	"encoding/base64"
 	"fmt"
+	"os"
+	"path/filepath"
 	"strings"
 	"testing"
 	"time"
@@ -24,14 +26,19 @@ import (
 
 const c16Password = "s3cret:x"
 
-type secCfg struct{ cert, key, verify, ca, pw bool }
+type secCfg struct {
+	cert, key, verify, ca, pw bool
+	bundle                    bool // --tls_cert names a PEM file that holds the certificate AND its private key (no --tls_key)
+}
+
+var certBundle string // written once per run: server certificate followed by its key
 
 func (c secCfg) slug() string {
 	var p []string
 	for _, f := range []struct {
 		on bool
 		n  string
-	}{{c.cert, "cert"}, {c.key, "key"}, {c.verify, "verify"}, {c.ca, "ca"}, {c.pw, "pw"}} {
+	}{{c.cert && !c.bundle, "cert"}, {c.bundle, "cert(bundle-with-key)"}, {c.key, "key"}, {c.verify, "verify"}, {c.ca, "ca"}, {c.pw, "pw"}} {
 		if f.on {
 			p = append(p, f.n)
 		}
@@ -44,7 +51,9 @@ func (c secCfg) slug() string {
 
 func (c secCfg) flags() []string {
 	var f []string
-	if c.cert {
+	if c.bundle {
+		f = append(f, "--tls_cert", certBundle)
+	} else if c.cert {
 		f = append(f, "--tls_cert", certServer)
 	}
 	if c.key {
@@ -140,6 +149,18 @@ func runC16(t *testing.T, res *common.Result, rng *common.Rng) {
 	var cfgs []secCfg
 	for m := 0; m < 32; m++ {
 		cfgs = append(cfgs, secCfg{cert: m&1 != 0, key: m&2 != 0, verify: m&4 != 0, ca: m&8 != 0, pw: m&16 != 0})
+	}
+	// a combined PEM (certificate + key in one file) as --tls_cert with no --tls_key: an incomplete TLS
+	// configuration like any other certificate without key - enforce on both listeners or refuse
+	if cb, err1 := os.ReadFile(certServer); err1 == nil {
+		if kb, err2 := os.ReadFile(keyServer); err2 == nil {
+			certBundle = filepath.Join(rootDir, "bundle.pem")
+			if os.WriteFile(certBundle, append(append(cb, '\n'), kb...), 0o600) == nil {
+				for m := 0; m < 8; m++ {
+					cfgs = append(cfgs, secCfg{cert: true, bundle: true, verify: m&1 != 0, ca: m&2 != 0, pw: m&4 != 0})
+				}
+			}
+		}
 	}
 	shuffle(rng, cfgs)
 	for _, c := range cfgs {
